@@ -13,11 +13,11 @@ open Fs Fs.Path Fs.PathSpec Fs.PathLemmas Fs.Ref Fs.Route Fs.MountLemmas Fs.Wrap
 every method refines its reference meaning, `validatepath` is the reference's `validate` -/
 structure PrimSem {σ : Type} (sem : Sem σ) (abs : σ → State) (inv : σ → Prop) (fix : σ → List (List Name)) : Prop where
   std : ∀ s, inv s → sem.closed s = false ∧ (abs s).closed = false ∧ (abs s).root.wf = true ∧ (abs s).root.isDir = true
-  prim : ∀ s pr, inv s → usedPrim pr = true → '\x00' ∉ pr.path → ¬ hitsFixture (fix s) (primOp pr) →
+  prim : ∀ s pr, inv s → usedPrim pr = true → ¬ hitsFixture (fix s) (primOp pr) →
     inv (sem.prim s pr).1 ∧ fix (sem.prim s pr).1 = fix s ∧
     abs (sem.prim s pr).1 = (Ref.step (abs s) (primOp pr)).1 ∧
     OutRel (abs s) (primOp pr) (sem.prim s pr).2.1 (Ref.step (abs s) (primOp pr)).2
-  validate : ∀ s p, inv s → '\x00' ∉ p →
+  validate : ∀ s p, inv s →
     (sem.validate s p).1 = (match validate p with | .ok _ => .ok () | .err e => .err e)
 
 section
@@ -48,10 +48,10 @@ theorem run_one (pr : Prim) (s : σ) :
 
 /-- a program that is one method call -/
 theorem one_ok (H : PrimSem sem abs inv fix) (pr : Prim) (s : σ) (hs : inv s) (hu : usedPrim pr = true)
-    (hnn : '\x00' ∉ pr.path) (hfix : ¬ hitsFixture (fix s) (primOp pr)) :
+    (hfix : ¬ hitsFixture (fix s) (primOp pr)) :
     ProgOk abs inv fix (primOp pr) s ((one pr).run sem s).1 ((one pr).run sem s).2.1 := by
   obtain ⟨h1, h2⟩ := run_one (sem := sem) pr s
-  obtain ⟨a, b, c, d⟩ := H.prim s pr hs hu hnn hfix
+  obtain ⟨a, b, c, d⟩ := H.prim s pr hs hu hfix
   exact ⟨by rw [h1]; exact a, by rw [h1]; exact b, by rw [h1]; exact c, by rw [h2]; exact d⟩
 
 /-! ### `getinfo` as the existence test of `FS.exists` -/
@@ -61,11 +61,11 @@ theorem getinfo_state (s : State) (p : Str) : (Ref.step s (.getinfo p)).1 = s :=
   RouteLemmas.step_query_state s (.getinfo p) rfl
 
 /-- `getinfo` through the primitives answers EXACTLY what the reference answers (error class included) -/
-theorem getinfo_exact (H : PrimSem sem abs inv fix) (s : σ) (hs : inv s) (p : Str) (hnn : '\x00' ∉ p) :
+theorem getinfo_exact (H : PrimSem sem abs inv fix) (s : σ) (hs : inv s) (p : Str) :
     inv (sem.prim s (.getinfo p)).1 ∧ fix (sem.prim s (.getinfo p)).1 = fix s ∧
     abs (sem.prim s (.getinfo p)).1 = abs s ∧
     (sem.prim s (.getinfo p)).2.1 = (Ref.step (abs s) (.getinfo p)).2 := by
-  obtain ⟨a, b, c, d⟩ := H.prim s (.getinfo p) hs rfl hnn (by simp [hitsFixture, primOp, Prim.memberOp])
+  obtain ⟨a, b, c, d⟩ := H.prim s (.getinfo p) hs rfl (by simp [hitsFixture, primOp, Prim.memberOp])
   simp only [primOp, Prim.memberOp, Prim.path] at c d
   refine ⟨a, b, by rw [c, getinfo_state], ?_⟩
   cases h : (Ref.step (abs s) (.getinfo p)).2 with
@@ -113,7 +113,7 @@ theorem getinfo_out_of_refExists {s : State} (hc : s.closed = false) (p : Str) :
 
 /-- **`FS.exists`-then**: the run of `existsThen p k` is the run of `k` on the reference's answer, from a
 state that reads the same; a validation error ends the program with that error -/
-theorem existsThen_run (H : PrimSem sem abs inv fix) (s : σ) (hs : inv s) (p : Str) (hnn : '\x00' ∉ p)
+theorem existsThen_run (H : PrimSem sem abs inv fix) (s : σ) (hs : inv s) (p : Str)
     (k : Bool → Prog) :
     ∃ s', inv s' ∧ fix s' = fix s ∧ abs s' = abs s ∧
       (∀ e, refExists (abs s) p = .err e →
@@ -121,7 +121,7 @@ theorem existsThen_run (H : PrimSem sem abs inv fix) (s : σ) (hs : inv s) (p : 
       (∀ b, refExists (abs s) p = .ok b →
         ((existsThen p k).run sem s).1 = ((k b).run sem s').1 ∧
         ((existsThen p k).run sem s).2.1 = ((k b).run sem s').2.1) := by
-  obtain ⟨a, b, c, d⟩ := getinfo_exact H s hs p hnn
+  obtain ⟨a, b, c, d⟩ := getinfo_exact H s hs p
   obtain ⟨_, hc, _, _⟩ := H.std s hs
   obtain ⟨g1, g2, g3⟩ := getinfo_out_of_refExists hc p
   refine ⟨(sem.prim s (.getinfo p)).1, a, b, c, ?_, ?_⟩
@@ -149,13 +149,13 @@ theorem run_ret (sem : Sem σ) (o : Out) (s : σ) : ((Prog.ret o).run sem s).1 =
   simp [Prog.run]
 
 /-- `validatepath(p)` in front of `k`: an invalid path ends the program with its error, from `s` -/
-theorem progOk_validate (H : PrimSem sem abs inv fix) (s : σ) (hs : inv s) (p : Str) (hnn : '\x00' ∉ p)
+theorem progOk_validate (H : PrimSem sem abs inv fix) (s : σ) (hs : inv s) (p : Str)
     (k : Prog) (op : Op)
     (herr : ∀ e, validate p = .err e → ProgOk abs inv fix op s s (.err e))
     (hok : ∀ cs, validate p = .ok cs → ProgOk abs inv fix op s (k.run sem s).1 (k.run sem s).2.1) :
     ProgOk abs inv fix op s ((Prog.validate p k).run sem s).1 ((Prog.validate p k).run sem s).2.1 := by
   obtain ⟨v1, v2⟩ := run_validate sem p k s
-  have hv := H.validate s p hs hnn
+  have hv := H.validate s p hs
   cases h : validate p with
   | err e =>
     rw [h] at hv
@@ -167,14 +167,14 @@ theorem progOk_validate (H : PrimSem sem abs inv fix) (s : σ) (hs : inv s) (p :
     rw [x1, x2]; exact hok cs h
 
 /-- `if self.exists(p)` in front of `k`: the reference's answer, from a state that reads the same -/
-theorem progOk_existsThen (H : PrimSem sem abs inv fix) (s s0 : σ) (hs : inv s) (p : Str) (hnn : '\x00' ∉ p)
+theorem progOk_existsThen (H : PrimSem sem abs inv fix) (s s0 : σ) (hs : inv s) (p : Str)
     (k : Bool → Prog) (op : Op)
     (herr : ∀ e s', inv s' → fix s' = fix s → abs s' = abs s → refExists (abs s) p = .err e →
       ProgOk abs inv fix op s0 s' (.err e))
     (hok : ∀ b s', inv s' → fix s' = fix s → abs s' = abs s → refExists (abs s) p = .ok b →
       ProgOk abs inv fix op s0 ((k b).run sem s').1 ((k b).run sem s').2.1) :
     ProgOk abs inv fix op s0 ((existsThen p k).run sem s).1 ((existsThen p k).run sem s).2.1 := by
-  obtain ⟨s', i1, i2, i3, he, hb⟩ := existsThen_run H s hs p hnn k
+  obtain ⟨s', i1, i2, i3, he, hb⟩ := existsThen_run H s hs p k
   cases h : refExists (abs s) p with
   | err e =>
     obtain ⟨x1, x2⟩ := he e h
@@ -212,10 +212,10 @@ theorem absnorm_eq_iff {p q : Str} {a b : List Name} (hp : validate p = .ok a) (
   · intro h; rw [h]
 
 /-- **`FS.exists`** over refining primitives refines the reference's `exists` -/
-theorem exists_ok (H : PrimSem sem abs inv fix) (s : σ) (hs : inv s) (p : Str) (hnn : '\x00' ∉ p) :
+theorem exists_ok (H : PrimSem sem abs inv fix) (s : σ) (hs : inv s) (p : Str) :
     ProgOk abs inv fix (.exists_ p) s ((baseExists p).run sem s).1 ((baseExists p).run sem s).2.1 := by
   obtain ⟨_, hc, _, _⟩ := H.std s hs
-  obtain ⟨s', i1, i2, i3, he, hb⟩ := existsThen_run H s hs p hnn (fun b => .ret (.ok (.bool b)))
+  obtain ⟨s', i1, i2, i3, he, hb⟩ := existsThen_run H s hs p (fun b => .ret (.ok (.bool b)))
   simp only [baseExists]
   cases hv : validate p with
   | err e =>
@@ -312,20 +312,20 @@ theorem kindAt_ne_none {t : Node} {b : List Name} (h : (t.get b).isSome = true) 
 /-- **`FS.copy`** over refining primitives (`validatepath` ×2, `exists(dst)`, same-path test,
 `open(src, "rb")`, `upload(dst)`) refines the reference's `copy` — whichever filesystems own the two paths -/
 theorem copy_ok (H : PrimSem sem abs inv fix) (s : σ) (hs : inv s) (src dst : Str) (ow : Bool)
-    (hn1 : '\x00' ∉ src) (hn2 : '\x00' ∉ dst) :
+    :
     ProgOk abs inv fix (.copy src dst ow) s ((baseCopy src dst ow).run sem s).1
       ((baseCopy src dst ow).run sem s).2.1 := by
   obtain ⟨hsc, hc, _, hd⟩ := H.std s hs
   have hop : (Op.copy src dst ow).paths = [src, dst] := rfl
   have hnex : ¬ exactOp (.copy src dst ow) := by simp [exactOp]
   rw [baseCopy_eq]
-  refine progOk_validate H s hs src hn1 _ _ ?_ ?_
+  refine progOk_validate H s hs src _ _ ?_ ?_
   · intro e hv1
     refine progOk_fail hs rfl rfl (e' := e) ?_ ?_ hnex
     · rw [QueryLemmas.step_two _ _ src dst hc hop, hv1]
     · rw [QueryLemmas.adm_two _ _ src dst hc hop, hv1]; cases validate dst <;> simp
   intro a hv1
-  refine progOk_validate H s hs dst hn2 _ _ ?_ ?_
+  refine progOk_validate H s hs dst _ _ ?_ ?_
   · intro e hv2
     refine progOk_fail hs rfl rfl (e' := e) ?_ ?_ hnex
     · rw [QueryLemmas.step_two _ _ src dst hc hop, hv1, hv2]
@@ -334,8 +334,6 @@ theorem copy_ok (H : PrimSem sem abs inv fix) (s : σ) (hs : inv s) (src dst : S
   obtain ⟨hstep, hadm⟩ := step_two_of_validate hc hop hv1 hv2
   have hva := validate_absnorm hv1
   have hvb := validate_absnorm hv2
-  have hna := noNul_absnorm hv1
-  have hnb := noNul_absnorm hv2
   have heq : (absnorm src = absnorm dst) ↔ a = b := absnorm_eq_iff hv1 hv2
   -- the body after the DestinationExists test, from any state that reads like `s`
   have body : ∀ s1, inv s1 → fix s1 = fix s → abs s1 = abs s →
@@ -360,7 +358,7 @@ theorem copy_ok (H : PrimSem sem abs inv fix) (s : σ) (hs : inv s) (src dst : S
         | .err e => Prog.ret (.err e)
         | .ok rd => one (.upload (absnorm dst) (bytesOf (.ok rd)))) s1
       rw [c1, c2]
-      obtain ⟨k1, k2, k3, k4⟩ := H.prim s1 (.openRead (absnorm src)) j1 rfl hna
+      obtain ⟨k1, k2, k3, k4⟩ := H.prim s1 (.openRead (absnorm src)) j1 rfl
         (by simp [hitsFixture, primOp, Prim.memberOp])
       simp only [primOp, Prim.memberOp, Prim.path] at k3 k4
       rw [j3] at k3 k4
@@ -409,7 +407,7 @@ theorem copy_ok (H : PrimSem sem abs inv fix) (s : σ) (hs : inv s) (src dst : S
           simp only [g1, bytesOf]
           obtain ⟨u1, u2⟩ := run_one (sem := sem) (.upload (absnorm dst) data) (sem.prim s1 (.openRead (absnorm src))).1
           obtain ⟨m1, m2, m3, m4⟩ := H.prim (sem.prim s1 (.openRead (absnorm src))).1 (.upload (absnorm dst) data)
-            k1 rfl hnb (by simp [hitsFixture, primOp, Prim.memberOp])
+            k1 rfl (by simp [hitsFixture, primOp, Prim.memberOp])
           simp only [primOp, Prim.memberOp, Prim.path] at m3 m4
           rw [k3] at m3 m4
           obtain ⟨w1', w2'⟩ := writebytes_eq data hc hvb
@@ -430,7 +428,7 @@ theorem copy_ok (H : PrimSem sem abs inv fix) (s : σ) (hs : inv s) (src dst : S
   | true => simpa using body s hs rfl rfl (Or.inl rfl)
   | false =>
     simp only [Bool.false_eq_true, if_false]
-    refine progOk_existsThen H s s hs (absnorm dst) hnb _ _ ?_ ?_
+    refine progOk_existsThen H s s hs (absnorm dst) _ _ ?_ ?_
     · intro e s' _ _ _ hre
       simp [refExists, hvb] at hre
     · intro bb s' i1 i2 i3 hre
@@ -547,20 +545,20 @@ theorem writeFile_keeps {s : State} {a b : List Name} {data data' : Bytes} {v : 
 exit, `open(src, "rb")`, `upload(dst)`, `remove(src)`) refines the reference's `move` — whichever
 filesystems own the two paths; the source must not be a fixture -/
 theorem move_ok (H : PrimSem sem abs inv fix) (s : σ) (hs : inv s) (src dst : Str) (ow : Bool)
-    (hn1 : '\x00' ∉ src) (hn2 : '\x00' ∉ dst) (hfx : ∀ a, validate src = .ok a → a ∉ fix s) :
+    (hfx : ∀ a, validate src = .ok a → a ∉ fix s) :
     ProgOk abs inv fix (.move src dst ow) s ((baseMove src dst ow).run sem s).1
       ((baseMove src dst ow).run sem s).2.1 := by
   obtain ⟨hsc, hc, _, hd⟩ := H.std s hs
   have hop : (Op.move src dst ow).paths = [src, dst] := rfl
   have hnex : ¬ exactOp (.move src dst ow) := by simp [exactOp]
   rw [baseMove_eq]
-  refine progOk_validate H s hs src hn1 _ _ ?_ ?_
+  refine progOk_validate H s hs src _ _ ?_ ?_
   · intro e hv1
     refine progOk_fail hs rfl rfl (e' := e) ?_ ?_ hnex
     · rw [QueryLemmas.step_two _ _ src dst hc hop, hv1]
     · rw [QueryLemmas.adm_two _ _ src dst hc hop, hv1]; cases validate dst <;> simp
   intro a hv1
-  refine progOk_validate H s hs dst hn2 _ _ ?_ ?_
+  refine progOk_validate H s hs dst _ _ ?_ ?_
   · intro e hv2
     refine progOk_fail hs rfl rfl (e' := e) ?_ ?_ hnex
     · rw [QueryLemmas.step_two _ _ src dst hc hop, hv1, hv2]
@@ -569,8 +567,6 @@ theorem move_ok (H : PrimSem sem abs inv fix) (s : σ) (hs : inv s) (src dst : S
   obtain ⟨hstep, hadm⟩ := step_two_of_validate hc hop hv1 hv2
   have hva := validate_absnorm hv1
   have hvb := validate_absnorm hv2
-  have hna := noNul_absnorm hv1
-  have hnb := noNul_absnorm hv2
   have heq : (absnorm src = absnorm dst) ↔ a = b := absnorm_eq_iff hv1 hv2
   have body : ∀ s1, inv s1 → fix s1 = fix s → abs s1 = abs s →
       (ow = true ∨ ((abs s).root.get b).isSome = false) →
@@ -591,7 +587,7 @@ theorem move_ok (H : PrimSem sem abs inv fix) (s : σ) (hs : inv s) (src dst : S
             | .err e => .ret (.err e)
             | .ok _ => one (.remove (absnorm src))) s1
     rw [c1, c2]
-    obtain ⟨k1, k2, k3, k4⟩ := getinfo_exact H s1 j1 (absnorm src) hna
+    obtain ⟨k1, k2, k3, k4⟩ := getinfo_exact H s1 j1 (absnorm src)
     rw [j3] at k3 k4
     rw [getinfo_eq hc hva] at k4
     cases hga : (abs s).root.get a with
@@ -636,7 +632,7 @@ theorem move_ok (H : PrimSem sem abs inv fix) (s : σ) (hs : inv s) (src dst : S
               | .err e => .ret (.err e)
               | .ok _ => one (.remove (absnorm src))) (sem.prim s1 (.getinfo (absnorm src))).1
           rw [d1, d2]
-          obtain ⟨m1, m2, m3, m4⟩ := H.prim (sem.prim s1 (.getinfo (absnorm src))).1 (.openRead (absnorm src)) k1 rfl hna
+          obtain ⟨m1, m2, m3, m4⟩ := H.prim (sem.prim s1 (.getinfo (absnorm src))).1 (.openRead (absnorm src)) k1 rfl
             (by simp [hitsFixture, primOp, Prim.memberOp])
           simp only [primOp, Prim.memberOp, Prim.path] at m3 m4
           rw [k3] at m3 m4
@@ -651,7 +647,7 @@ theorem move_ok (H : PrimSem sem abs inv fix) (s : σ) (hs : inv s) (src dst : S
             | .err e => Prog.ret (.err e)
             | .ok _ => one (.remove (absnorm src))) s2
           rw [u1, u2]
-          obtain ⟨n1, n2, n3, n4⟩ := H.prim s2 (.upload (absnorm dst) data) m1 rfl hnb
+          obtain ⟨n1, n2, n3, n4⟩ := H.prim s2 (.upload (absnorm dst) data) m1 rfl
             (by simp [hitsFixture, primOp, Prim.memberOp])
           simp only [primOp, Prim.memberOp, Prim.path] at n3 n4
           rw [m3] at n3 n4
@@ -692,7 +688,7 @@ theorem move_ok (H : PrimSem sem abs inv fix) (s : σ) (hs : inv s) (src dst : S
               rw [hva] at h1; cases h1
               rw [n2, m2, k2, j2] at h2
               exact hfx a hv1 h2
-            obtain ⟨q1, q2, q3, q4⟩ := H.prim s3 (.remove (absnorm src)) n1 rfl hna hfx3
+            obtain ⟨q1, q2, q3, q4⟩ := H.prim s3 (.remove (absnorm src)) n1 rfl hfx3
             simp only [primOp, Prim.memberOp, Prim.path] at q3 q4
             rw [n3] at q3 q4
             have hkeep := writeFile_keeps (v := .unit) hga hab (by rw [hw]; rfl)
@@ -719,7 +715,7 @@ theorem move_ok (H : PrimSem sem abs inv fix) (s : σ) (hs : inv s) (src dst : S
   | true => simpa using body s hs rfl rfl (Or.inl rfl)
   | false =>
     simp only [Bool.false_eq_true, if_false]
-    refine progOk_existsThen H s s hs (absnorm dst) hnb _ _ ?_ ?_
+    refine progOk_existsThen H s s hs (absnorm dst) _ _ ?_ ?_
     · intro e s' _ _ _ hre
       simp [refExists, hvb] at hre
     · intro bb s' i1 i2 i3 hre
@@ -779,7 +775,7 @@ theorem openwb_invalid {s : State} {p : Str} {e : Err} (hc : s.closed = false) (
 
 /-- **`FS.create`-then** (`if not wipe and self.exists(path): …; with self.open(path, "wb"): pass`) in
 front of `k created` -/
-theorem progOk_createThen (H : PrimSem sem abs inv fix) (s : σ) (hs : inv s) (p : Str) (hnn : '\x00' ∉ p)
+theorem progOk_createThen (H : PrimSem sem abs inv fix) (s : σ) (hs : inv s) (p : Str)
     (wipe : Bool) (k : Bool → Prog) (op : Op)
     (hinvalid : ∀ e s', inv s' → fix s' = fix s → abs s' = abs s → validate p = .err e →
       ProgOk abs inv fix op s s' (.err e))
@@ -811,7 +807,7 @@ theorem progOk_createThen (H : PrimSem sem abs inv fix) (s : σ) (hs : inv s) (p
       | .ok _ => k true
       | .err e => .ret (.err e)) s1
     rw [c1, c2]
-    obtain ⟨m1, m2, m3, m4⟩ := H.prim s1 (.openWrite p) j1 rfl hnn (by simp [hitsFixture, primOp, Prim.memberOp])
+    obtain ⟨m1, m2, m3, m4⟩ := H.prim s1 (.openWrite p) j1 rfl (by simp [hitsFixture, primOp, Prim.memberOp])
     simp only [primOp, Prim.memberOp, Prim.path] at m3 m4
     rw [j3] at m3 m4
     cases hv : validate p with
@@ -854,7 +850,7 @@ theorem progOk_createThen (H : PrimSem sem abs inv fix) (s : σ) (hs : inv s) (p
     exact doCreate s hs rfl rfl (fun _ _ => Or.inl rfl)
   | false =>
     simp only [Bool.false_eq_true, if_false]
-    refine progOk_existsThen H s s hs p hnn _ _ ?_ ?_
+    refine progOk_existsThen H s s hs p _ _ ?_ ?_
     · intro e s' i1 i2 i3 hre
       have : validate p = .err e := by
         simp only [refExists] at hre
@@ -922,12 +918,12 @@ theorem validate_fail_ok {op : Op} {p : Str} {e : Err} {s st : σ} (hc : (abs s)
   · rw [QueryLemmas.adm_one _ _ p hc hp hno, hv]; simp
 
 /-- **`FS.create`** over refining primitives refines the reference's `create` -/
-theorem create_ok (H : PrimSem sem abs inv fix) (s : σ) (hs : inv s) (p : Str) (w : Bool) (hnn : '\x00' ∉ p) :
+theorem create_ok (H : PrimSem sem abs inv fix) (s : σ) (hs : inv s) (p : Str) (w : Bool) :
     ProgOk abs inv fix (.create p w) s ((baseCreate p w).run sem s).1 ((baseCreate p w).run sem s).2.1 := by
   obtain ⟨_, hc, _, _⟩ := H.std s hs
   have hnex : ¬ exactOp (.create p w) := by simp [exactOp]
   simp only [baseCreate]
-  refine progOk_createThen H s hs p hnn w _ _ ?_ ?_ ?_ ?_
+  refine progOk_createThen H s hs p w _ _ ?_ ?_ ?_ ?_
   · intro e s' i1 i2 i3 hv
     exact validate_fail_ok hc rfl (by simp) hv i1 i2 i3 hnex
   · intro cs s' i1 i2 i3 hv hw hex
@@ -965,12 +961,12 @@ theorem create_ok (H : PrimSem sem abs inv fix) (s : σ) (hs : inv s) (p : Str) 
       exact ⟨fun _ => rfl, fun e' he' => by cases he'⟩
 
 /-- **`FS.touch`** over refining primitives refines the reference's `touch` -/
-theorem touch_ok (H : PrimSem sem abs inv fix) (s : σ) (hs : inv s) (p : Str) (hnn : '\x00' ∉ p) :
+theorem touch_ok (H : PrimSem sem abs inv fix) (s : σ) (hs : inv s) (p : Str) :
     ProgOk abs inv fix (.touch p) s ((baseTouch p).run sem s).1 ((baseTouch p).run sem s).2.1 := by
   obtain ⟨_, hc, _, _⟩ := H.std s hs
   have hnex : ¬ exactOp (.touch p) := by simp [exactOp]
   simp only [baseTouch]
-  refine progOk_createThen H s hs p hnn false _ _ ?_ ?_ ?_ ?_
+  refine progOk_createThen H s hs p false _ _ ?_ ?_ ?_ ?_
   · intro e s' i1 i2 i3 hv
     exact validate_fail_ok hc rfl (by simp) hv i1 i2 i3 hnex
   · intro cs s' i1 i2 i3 hv _ hex
@@ -978,7 +974,7 @@ theorem touch_ok (H : PrimSem sem abs inv fix) (s : σ) (hs : inv s) (p : Str) (
     simp only [Bool.false_eq_true, if_false]
     obtain ⟨o1, o2⟩ := run_one (sem := sem) (.setinfo p) s'
     rw [o1, o2]
-    obtain ⟨m1, m2, m3, m4⟩ := H.prim s' (.setinfo p) i1 rfl hnn (by simp [hitsFixture, primOp, Prim.memberOp])
+    obtain ⟨m1, m2, m3, m4⟩ := H.prim s' (.setinfo p) i1 rfl (by simp [hitsFixture, primOp, Prim.memberOp])
     simp only [primOp, Prim.memberOp, Prim.path] at m3 m4
     rw [i3] at m3 m4
     have hset : Ref.step (abs s) (.settimes p) = done (abs s) := by
